@@ -242,6 +242,27 @@ func vpH_C05_onehit() {
 	it, err := pl.Iterator(flags >= 1, flags >= 1, flags >= 2, nil)
 	vpMust(err, "Iterator")
 	vpDriveIterator(it, live, exp, flags, 3)
+	if vpChoice("then-general-list", 2) == 1 {
+		// the iterator that served the 1-hit list is handed back as the
+		// preallocated iterator of a general-encoded list (another segment)
+		all := make([]bool, n)
+		for i := range all {
+			all[i] = true
+		}
+		docs2 := vpIterDocs(n, all, make([]bool, n))
+		exp2 := vpBuildExpect(docs2, nil)
+		seg2 := vpBuild(docs2, 1025)
+		mb2, _ := vpMergeBytes([]*Segment{seg2}, []*roaring.Bitmap{nil}, 1025)
+		d2, err := vpLoad(mb2).Dictionary("a")
+		vpMust(err, "Dictionary")
+		pl2, err := d2.PostingsList([]byte("x"), nil, nil)
+		vpMust(err, "PostingsList")
+		vpAssert(pl2.Count() == uint64(n), "Count of the general list")
+		it2, err := pl2.Iterator(flags >= 1, flags >= 1, flags >= 2, it)
+		vpMust(err, "Iterator")
+		vpDriveIterator(it2, all, exp2, flags, 1)
+		vpReach("C05 general list after a 1-hit list")
+	}
 	vpReach("C05 onehit end")
 }
 
